@@ -142,7 +142,11 @@ class JSONCodec(AbstractMetadataCodec):
 
     @classmethod
     def is_schema_trivial(self, schema: Mapping) -> bool:
-        return len(schema.get("properties", {})) == 0
+        # Validation can only be skipped when no keyword of the schema can
+        # constrain a row: a schema without "properties" may still have e.g.
+        # "type", "required" or "additionalProperties".
+        annotations = {"codec", "title", "description", "$comment", "examples", "default"}
+        return all(key in annotations for key in schema)
 
     def __init__(self, schema: Mapping[str, Any]) -> None:
         try:
